@@ -228,6 +228,11 @@ func parseRule(node *yaml.Node, offsetLine, offsetColumn int, contentLines []str
 
 	var ruleComments []comments.Comment
 
+	// Only a mapping (or an alias of one) can be a rule, a list of strings is not a list of keys and values.
+	if node.Kind != yaml.MappingNode && (node.Alias == nil || node.Alias.Kind != yaml.MappingNode) {
+		return rule, true
+	}
+
 	for i, part := range unpackNodes(node) {
 		if lines.First == 0 || part.Line+offsetLine < lines.First {
 			lines.First = part.Line + offsetLine
